@@ -137,7 +137,9 @@ func (s *rangeProofStructure) verifyProofStructure(proof RangeProof) bool {
 	}
 
 	// Validate presence of all values
+	expected := map[string]struct{}{}
 	for _, curRhs := range s.Rhs {
+		expected[curRhs.Secret] = struct{}{}
 		rlist, ok := proof.Results[curRhs.Secret]
 		if !ok {
 			return false
@@ -150,6 +152,11 @@ func (s *rangeProofStructure) verifyProofStructure(proof RangeProof) bool {
 				return false
 			}
 		}
+	}
+
+	// Results for other secrets are not part of this proof; commitmentsFromProof walks all entries
+	if len(proof.Results) != len(expected) {
+		return false
 	}
 
 	// Validate size of secret results
